@@ -29,6 +29,9 @@ impl TrakBox {
         if let Some(ref edts) = self.edts {
             size += edts.box_size();
         }
+        if let Some(ref meta) = self.meta {
+            size += meta.box_size();
+        }
         size += self.mdia.box_size();
         size
     }
@@ -127,6 +130,9 @@ impl<W: Write> WriteBox<&mut W> for TrakBox {
         self.tkhd.write_box(writer)?;
         if let Some(ref edts) = self.edts {
             edts.write_box(writer)?;
+        }
+        if let Some(ref meta) = self.meta {
+            meta.write_box(writer)?;
         }
         self.mdia.write_box(writer)?;
 
